@@ -50,15 +50,45 @@ def public_props(obj, skip=SKIP):
 
 
 class Interner:
+    """equal values get equal integer tokens.  Floats are equal when they agree to a
+    relative 1e-9 (absolute 1e-12): the relation is about WHERE a value sits, and a
+    refactoring of the library that re-associates a floating-point expression on one of the
+    two code paths must not turn a re-indexed output into a different token."""
+    REL, ABS = 1e-9, 1e-12
+
     def __init__(self):
         self.table = {}
+        self.reps = []      # sorted float representatives
+        self.rep_tok = {}   # representative -> token
+
+    def _float_tok(self, x):
+        import bisect
+        key = repr(x)
+        t = self.table.get(key)
+        if t is not None:
+            return t
+        if math.isinf(x):
+            return self.table.setdefault(key, len(self.table) + 1)
+        i = bisect.bisect_left(self.reps, x)
+        for j in (i - 1, i):
+            if 0 <= j < len(self.reps):
+                r = self.reps[j]
+                if abs(r - x) <= max(self.ABS, self.REL * max(abs(r), abs(x))):
+                    self.table[key] = self.rep_tok[r]
+                    return self.rep_tok[r]
+        t = self.table.setdefault(key, len(self.table) + 1)
+        self.reps.insert(i, x)
+        self.rep_tok[x] = t
+        return t
 
     def tok(self, x):
         if isinstance(x, (np.floating, float)):
             x = float(x)
-            key = "nan" if math.isnan(x) else repr(x)
+            if math.isnan(x):
+                return self.table.setdefault("nan", len(self.table) + 1)
+            return self._float_tok(x)
         elif isinstance(x, (np.integer, int)) and not isinstance(x, (bool, np.bool_)):
-            key = repr(float(int(x)))
+            return self._float_tok(float(int(x)))
         elif isinstance(x, (bool, np.bool_)):
             key = "b%d" % bool(x)
         elif x is None:
